@@ -183,7 +183,7 @@ func main() {
 	}
 	r := ev.New("C07", "model_checking",
 		"breadth-first search over reference-model states (mode, buffer, history of pages, cursor) from 9 start commands (thread with ancestors and paged replies, actor with paged outbox, multi-author post with unfetchable parent, empty outbox, outbox whose second page is missing, feed of two actors, empty feed, failing URL, empty collection); "+
-			"alphabet: the keymap's keys, digits, Esc, Backspace, arbitrary bytes (NUL, LF, 0xC3) and macros (:open / :feed / unknown commands, a 20-digit number, 0 Enter, n .); every transition replays the shortest key path on a fresh real ui.State (key + settle under the scheduler's default schedule) "+
+			"alphabet: the keymap's keys, digits, Esc, Backspace, arbitrary bytes (NUL, LF, 0xC3) and macros (:open / :feed / unknown commands, a 20-digit number, 0 Enter, n .); a second search goes to depth 7 (quick) / 9 (thorough) over the page-opening and history keys {space,h,l,j,k,c,a} from the thread and actor starts; every transition replays the shortest key path on a fresh real ui.State (key + settle under the scheduler's default schedule) "+
 			"and compares mode, buffer, history length/index and highlighted item; every frame is checked for height, terminal safety and colour leaks; distinct_nontrivial = distinct model states")
 	w := uimodel.Build()
 	geoms := [][3]int{{40, 12, 2}}
@@ -208,127 +208,156 @@ func main() {
 	defer pool.Close()
 	var mu sync.Mutex
 	frames := int64(0)
-	for _, g := range geoms {
-		seen := map[string]bool{}
-		var frontier []node
-		for _, st := range w.Starts() {
-			s := w.Start(st.Cmd, st.Arg)
-			frontier = append(frontier, node{st, nil, []string{"start:" + st.Name}, s})
-			seen[st.Name+"|"+s.Key()] = true
+	type phase struct {
+		Name   string
+		Depth  int
+		Starts map[string]bool // nil = all
+		Tokens func(st *uimodel.State, preload int) []token
+	}
+	historyKeys := func(st *uimodel.State, preload int) []token {
+		if st.Mode != uimodel.ModeNormal {
+			return nil
 		}
-		// the start states themselves
-		for d := 0; d <= depth && len(frontier) > 0; d++ {
-			type job struct {
-				n       node
-				tok     token
-				next    *uimodel.State
-				unspec  bool
-				resp    response
-				died    bool
-				diedLog string
+		return []token{{"space", []byte(" ")}, {"h", []byte("h")}, {"l", []byte("l")}, {"j", []byte("j")}, {"k", []byte("k")}, {"c", []byte("c")}, {"a", []byte("a")}}
+	}
+	hdepth := 7
+	if r.Thorough() {
+		hdepth = 9
+	}
+	phases := []phase{
+		{"full-alphabet", depth, nil, tokens},
+		// deeper histories over the keys that open pages and walk the history: most defects of
+		// stateful code do not show from the initial state
+		{"history-keys", hdepth, map[string]bool{"thread": true, "actor": true}, historyKeys},
+	}
+	for _, ph := range phases {
+		depth := ph.Depth
+		tokens := ph.Tokens
+		for _, g := range geoms {
+			seen := map[string]bool{}
+			var frontier []node
+			for _, st := range w.Starts() {
+				if ph.Starts != nil && !ph.Starts[st.Name] {
+					continue
+				}
+				s := w.Start(st.Cmd, st.Arg)
+				frontier = append(frontier, node{st, nil, []string{"start:" + st.Name}, s})
+				seen[st.Name+"|"+s.Key()] = true
 			}
-			var jobs []*job
-			if d == 0 {
-				for _, n := range frontier {
-					jobs = append(jobs, &job{n: n, tok: token{"(start)", nil}, next: n.State})
+			// the start states themselves
+			for d := 0; d <= depth && len(frontier) > 0; d++ {
+				type job struct {
+					n       node
+					tok     token
+					next    *uimodel.State
+					unspec  bool
+					resp    response
+					died    bool
+					diedLog string
 				}
-			} else {
-				for _, n := range frontier {
-					if !r.Thorough() && d == depth && !map[string]bool{"thread": true, "actor": true, "feed-two-actors": true}[n.Start.Name] {
-						continue // quick: the six degenerate starts are explored one level less
-					}
-					for _, tok := range tokens(n.State, g[2]) {
-						if d == depth && len(tok.Keys) > 3 && !r.Thorough() {
-							continue // quick: typed commands are explored at every level but the last
-						}
-						next := n.State.Clone()
-						unspec := false
-						for _, k := range tok.Keys {
-							if uimodel.Unspecified(next, k) {
-								unspec = true
-							}
-							w.Apply(next, k)
-						}
-						jobs = append(jobs, &job{n: n, tok: tok, next: next, unspec: unspec})
-					}
-				}
-			}
-			var wg sync.WaitGroup
-			for _, j := range jobs {
-				wg.Add(1)
-				go func(j *job) {
-					defer wg.Done()
-					keys := append(append([]byte{}, j.n.Path...), j.tok.Keys...)
-					b, _ := json.Marshal(request{j.n.Start, keys, g[0], g[1], g[2]})
-					pr := pool.Call(b)
-					if pr.Died {
-						j.died, j.diedLog = true, pr.Log
-						return
-					}
-					json.Unmarshal(pr.Line, &j.resp)
-				}(j)
-			}
-			wg.Wait()
-			var next []node
-			for _, j := range jobs {
-				keys := append(append([]byte{}, j.n.Path...), j.tok.Keys...)
-				names := append(append([]string{}, j.n.Names...), j.tok.Name)
-				rc := replayCase{j.n.Start, keys, names, g[0], g[1], g[2]}
-				r.Transitions++
-				mu.Lock()
-				frames += int64(j.resp.Frames)
-				mu.Unlock()
-				cls := keyClass(names, j.resp)
-				switch {
-				case j.died:
-					r.Violation("crash:worker-died:"+cls, map[string]any{"case": rc, "msg": "the process running this key sequence died", "log": j.diedLog})
-					continue
-				case j.resp.StartErr != "":
-					ev.Fatal("start command %v failed: %s", j.n.Start, j.resp.StartErr)
-				case j.resp.Panic != "":
-					r.Violation("crash:"+cls, map[string]any{"case": rc, "msg": j.resp.Panic})
-					continue
-				case j.resp.Wedged != "":
-					r.Violation("wedged:"+cls, map[string]any{"case": rc, "msg": j.resp.Wedged})
-					continue
-				}
-				for _, ff := range j.resp.FrameFaults {
-					r.Violation("frame:"+strings.SplitN(ff, ":", 2)[0], map[string]any{"case": rc, "msg": ff})
-				}
-				if j.unspec {
-					continue // executed for crashes and frame invariants only
-				}
-				m := j.next
-				want := fmt.Sprintf("mode=%d buffer=%q hist=%d/%d current=%s", m.Mode, m.Buffer, m.Index, len(m.Pages), m.Page().Current())
-				got := fmt.Sprintf("mode=%d buffer=%q hist=%d/%d current=%s", j.resp.Mode, j.resp.Buffer, j.resp.HistIndex, j.resp.HistLen, j.resp.Current)
-				if want != got {
-					what := "highlight"
-					switch {
-					case m.Mode != j.resp.Mode || m.Buffer != j.resp.Buffer:
-						what = "mode"
-					case m.Index != j.resp.HistIndex || len(m.Pages) != j.resp.HistLen:
-						what = "history"
-					}
-					r.Violation("keymap:"+what+":"+cls, map[string]any{"case": rc, "real": got, "model": want, "msg": "after these keys the UI is at [" + got + "], the keymap predicts [" + want + "]"})
-					continue
-				}
-				k := j.n.Start.Name + "|" + m.Key()
+				var jobs []*job
 				if d == 0 {
-					next = append(next, j.n) // the start state itself, now validated
-					continue
+					for _, n := range frontier {
+						jobs = append(jobs, &job{n: n, tok: token{"(start)", nil}, next: n.State})
+					}
+				} else {
+					for _, n := range frontier {
+						if !r.Thorough() && ph.Name == "full-alphabet" && d == depth && !map[string]bool{"thread": true, "actor": true, "feed-two-actors": true}[n.Start.Name] {
+							continue // quick: the six degenerate starts are explored one level less
+						}
+						for _, tok := range tokens(n.State, g[2]) {
+							if d == depth && len(tok.Keys) > 3 && !r.Thorough() {
+								continue // quick: typed commands are explored at every level but the last
+							}
+							next := n.State.Clone()
+							unspec := false
+							for _, k := range tok.Keys {
+								if uimodel.Unspecified(next, k) {
+									unspec = true
+								}
+								w.Apply(next, k)
+							}
+							jobs = append(jobs, &job{n: n, tok: tok, next: next, unspec: unspec})
+						}
+					}
 				}
-				if !seen[k] && len(m.Pages) <= 4 && d < depth {
-					seen[k] = true
-					next = append(next, node{j.n.Start, keys, names, m})
+				var wg sync.WaitGroup
+				for _, j := range jobs {
+					wg.Add(1)
+					go func(j *job) {
+						defer wg.Done()
+						keys := append(append([]byte{}, j.n.Path...), j.tok.Keys...)
+						b, _ := json.Marshal(request{j.n.Start, keys, g[0], g[1], g[2]})
+						pr := pool.Call(b)
+						if pr.Died {
+							j.died, j.diedLog = true, pr.Log
+							return
+						}
+						json.Unmarshal(pr.Line, &j.resp)
+					}(j)
 				}
+				wg.Wait()
+				var next []node
+				for _, j := range jobs {
+					keys := append(append([]byte{}, j.n.Path...), j.tok.Keys...)
+					names := append(append([]string{}, j.n.Names...), j.tok.Name)
+					rc := replayCase{j.n.Start, keys, names, g[0], g[1], g[2]}
+					r.Transitions++
+					mu.Lock()
+					frames += int64(j.resp.Frames)
+					mu.Unlock()
+					cls := keyClass(names, j.resp)
+					switch {
+					case j.died:
+						r.Violation("crash:worker-died:"+cls, map[string]any{"case": rc, "msg": "the process running this key sequence died", "log": j.diedLog})
+						continue
+					case j.resp.StartErr != "":
+						ev.Fatal("start command %v failed: %s", j.n.Start, j.resp.StartErr)
+					case j.resp.Panic != "":
+						r.Violation("crash:"+cls, map[string]any{"case": rc, "msg": j.resp.Panic})
+						continue
+					case j.resp.Wedged != "":
+						r.Violation("wedged:"+cls, map[string]any{"case": rc, "msg": j.resp.Wedged})
+						continue
+					}
+					for _, ff := range j.resp.FrameFaults {
+						r.Violation("frame:"+strings.SplitN(ff, ":", 2)[0], map[string]any{"case": rc, "msg": ff})
+					}
+					if j.unspec {
+						continue // executed for crashes and frame invariants only
+					}
+					m := j.next
+					want := fmt.Sprintf("mode=%d buffer=%q hist=%d/%d current=%s", m.Mode, m.Buffer, m.Index, len(m.Pages), m.Page().Current())
+					got := fmt.Sprintf("mode=%d buffer=%q hist=%d/%d current=%s", j.resp.Mode, j.resp.Buffer, j.resp.HistIndex, j.resp.HistLen, j.resp.Current)
+					if want != got {
+						what := "highlight"
+						switch {
+						case m.Mode != j.resp.Mode || m.Buffer != j.resp.Buffer:
+							what = "mode"
+						case m.Index != j.resp.HistIndex || len(m.Pages) != j.resp.HistLen:
+							what = "history"
+						}
+						r.Violation("keymap:"+what+":"+cls, map[string]any{"case": rc, "real": got, "model": want, "msg": "after these keys the UI is at [" + got + "], the keymap predicts [" + want + "]"})
+						continue
+					}
+					k := j.n.Start.Name + "|" + m.Key()
+					if d == 0 {
+						next = append(next, j.n) // the start state itself, now validated
+						continue
+					}
+					if !seen[k] && len(m.Pages) <= 4 && d < depth {
+						seen[k] = true
+						next = append(next, node{j.n.Start, keys, names, m})
+					}
+				}
+				frontier = next
 			}
-			frontier = next
+			r.States += int64(len(seen))
+			for k := range seen {
+				r.Distinct(fmt.Sprint(g, k))
+			}
+			r.Extra[fmt.Sprintf("states_%s_%dx%d_preload%d", ph.Name, g[0], g[1], g[2])] = len(seen)
 		}
-		r.States += int64(len(seen))
-		for k := range seen {
-			r.Distinct(fmt.Sprint(g, k))
-		}
-		r.Extra[fmt.Sprintf("states_%dx%d_preload%d", g[0], g[1], g[2])] = len(seen)
 	}
 	r.Eval(r.Transitions)
 	r.Traces = r.Transitions
